@@ -46,7 +46,8 @@ class Method(Variable):  # i.e. TypeBound procedure
                 self.drop_arg = 0
             if (
                 (self.parent.contains_start is not None)
-                and (self.sline > self.parent.contains_start)
+                # `>=`: the binding may share the line of CONTAINS (`contains; procedure :: p`)
+                and (self.sline >= self.parent.contains_start)
                 and (self.link_name is None)
             ):
                 self.link_name = self.name.lower()
